@@ -156,7 +156,8 @@ func lalrkGram3(r *rand.Rand) (*Gram, int) {
 }
 
 func c07(c *Ctx) {
-	c.Rule = "grammars built to need 2-4 tokens of lookahead (two reductions of one RHS whose contexts share a prefix made of terminals, terminal-deriving and nullable nonterminals; two conflict states whose rows differ only in the nested lookahead table; a third of the grammars also compiled with MinimizeDFA for the sentences check) plus random CFGs, compiled by the real lalr.Compile with Lookahead k in 2..4; for each grammar that compiles without error: (1) Lean recomputes LALR(k) lookahead strings by item propagation, walks every lookahead automaton in the tables on every string, and checks the two certificates that are the hypotheses of C07_lr_sound_k / C07_lr_complete_k / C07_lr_exact_k (past-certificate against every leaf of every lookahead automaton; LR(k)-item certificate) on the real tables, (2) all token strings up to length 5 + random sentences/mutations are run through the Lean parser model on the real tables and compared with a brute-force recogniser; non-trivial = UsedLADepth > 0; distinct by grammar"
+	c.Rule = "grammars built to need 2-4 tokens of lookahead (two reductions of one RHS whose contexts share a prefix made of terminals, terminal-deriving and nullable nonterminals; two conflict states whose rows differ only in the nested lookahead table; a third of the grammars also compiled with MinimizeDFA for the sentences check) plus random CFGs, compiled by the real lalr.Compile with Lookahead k in 2..4; for each grammar that compiles without error: (1) Lean recomputes LALR(k) lookahead strings by item propagation, walks every lookahead automaton in the tables on every string, and checks the two certificates that are the hypotheses of C07_lr_sound_k / C07_lr_complete_k / C07_lr_exact_k (past-certificate against every leaf of every lookahead automaton; LR(k)-item certificate) on the real tables, (2) all token strings up to length 5 + random sentences/mutations are run through the Lean parser model on the real tables and compared with a brute-force recogniser; (3) end to end: a few of these grammars plus one with an acknowledged conflict (%expect-rr) next to a resolved one go through the real compiler and generator, the generated parsers are run on all token strings up to length 5 and compared with the recogniser (accept/reject, termination); non-trivial = UsedLADepth > 0; distinct by grammar"
+	c07EndToEnd(c)
 	n := c.N(250, 4000)
 	for i := 0; i < n; i++ {
 		var g *Gram
